@@ -283,6 +283,7 @@ impl World {
 
     pub fn exec(&mut self, op: &Op) -> Res {
         self.step += 1;
+        crate::sched::note_step(self.step);
         self.trace_hash = (self.trace_hash ^ crate::rng::fnv64(op.to_json().to_string().as_bytes())).wrapping_mul(0x100000001b3);
         self.bump(&format!("op.{}", op.name()));
         if let Some(r) = op.replica() {
